@@ -2,6 +2,7 @@ import GB.Base.Proto
 import GB.C10.Spec
 import GB.C10.Options
 import GB.C10.CreateStatus
+import GB.C10.RespPath
 /-
   C10 driver — judges one case line of harness/c10 (see that file for the line formats).
     tbl <code> => <http>
@@ -579,7 +580,194 @@ def handleCreate (i o : List String) : String :=
     | _, _, _, _, _, _, _, _ => "BAD create fields"
   | _, _ => "BAD create arity"
 
+/-! ### rb: response_body selection on nested response messages (GB/C10/RespPath.lean) -/
+
+def strTail (s : String) : String := String.ofList (s.toList.drop 1)
+
+def rbKind? : String → Option C09.Kind
+  | "b" => some .bool | "i32" => some .int32 | "i64" => some .int64 | "u32" => some .uint32 | "u64" => some .uint64
+  | "s" => some .string | "y" => some .bytes
+  | _ => none
+
+def rbType? (t : String) : Option RP.RType :=
+  match rbKind? t with
+  | some k => some (.leaf .sing k)
+  | none =>
+    match t.toList.head? with
+    | some 'R' => (rbKind? (strTail t)).map (RP.RType.leaf .rep)
+    | some 'M' =>
+      match (strTail t).splitOn "/" with
+      | [a, b] => do let kk ← rbKind? a; let k ← rbKind? b; pure (.leaf (.map kk) k)
+      | _ => none
+    | some 'm' => (strTail t).toNat?.map RP.RType.msg
+    | some 'r' => (strTail t).toNat?.map RP.RType.repMsg
+    | some 'p' => (strTail t).toNat?.map RP.RType.mapMsg
+    | _ => none
+
+def rbSchema? (s : String) : Option RP.RSchema :=
+  (s.splitOn ";").mapM fun d =>
+    if d == "-" then some [] else
+    (d.splitOn ",").mapM fun f =>
+      match f.splitOn ":" with
+      | [n, t] => (rbType? t).map fun ty => ({ name := ascii n, ty := ty } : RP.RField)
+      | _ => none
+
+def rbVal? (v : String) : Option C09.Scalar :=
+  match v.toList.head? with
+  | some 'b' => if v == "b1" then some (.bool true) else if v == "b0" then some (.bool false) else none
+  | some 'i' => (strTail v).toInt?.map C09.Scalar.int
+  | some 's' => (parseHex (strTail v)).map C09.Scalar.str
+  | some 'y' => (parseHex (strTail v)).map C09.Scalar.bytes
+  | _ => none
+
+def rbCell? (c : String) : Option RP.RCell :=
+  match c.toList.head? with
+  | some 'P' => some .present
+  | some 'O' => some .opaque
+  | some 'S' => (rbVal? (strTail c)).map fun v => .leaf (.sing (some v))
+  | some 'L' => ((strTail c).splitOn ",").mapM rbVal? |>.map fun vs => .leaf (.list vs)
+  | some 'K' => ((strTail c).splitOn ",").mapM (fun (e : String) => match e.splitOn "~" with
+      | [k, v] => do let k ← rbVal? k; let v ← rbVal? v; pure (k, v)
+      | _ => none) |>.map fun kvs => .leaf (.map kvs)
+  | _ => none
+
+def rbPath (s : String) : RP.Path := (s.splitOn ".").map ascii
+
+def rbMsg? (s : String) : Option RP.RMsg :=
+  if s == "-" then some [] else
+  (s.splitOn ";").mapM fun e =>
+    match e.splitOn "=" with
+    | [p, c] => (rbCell? c).map fun c => (rbPath p, c)
+    | _ => none
+
+def rbOracle? (s : String) : Option (List (RP.Path × Bytes)) :=
+  (s.splitOn ";").mapM fun e =>
+    match e.splitOn ":" with
+    | [p, h] => (parseHex h).map fun b => ((if p == "*" then [] else rbPath p), b)
+    | _ => none
+
+/-- compact rendering, members of the outermost object sorted by name (as in the C09 driver) -/
+def rbRender (j : C09.J) : Bytes :=
+  C09.renderCompact (match j with
+    | .obj kvs => .obj (C09.sortMembers kvs)
+    | j => j)
+
+def rbOps : C09.FloatOps := { parse := fun _ _ => none, fmt := fun _ _ => [] }
+
+def rbJson? (b : Bytes) : Option C09.J :=
+  match C09.parseJSON b with
+  | some (j, rest) => if (C09.skipWS rest).isEmpty then some j else none
+  | none => none
+
+def rbEnv (orc : List (RP.Path × Bytes)) : RP.REnv :=
+  { msgJson := fun p => match orc.find? (fun e => e.1 == p) with
+      | some e => (match rbJson? e.2 with
+        | some j => .ok j
+        | none => .err)
+      | none => .err }
+
+def rbShowSel : Option (RP.Path × RP.RField) → String
+  | none => "*"
+  | some (pre, fd) => ".".intercalate ((pre ++ [fd.name]).map bytesToString)
+
+def splitOn10 : Bytes → List Bytes
+  | [] => [[]]
+  | c :: rest =>
+    if c == 10 then [] :: splitOn10 rest
+    else match splitOn10 rest with
+      | [] => [[c]]
+      | h :: t => (c :: h) :: t
+
+/-- the response STREAM of the same binding fed the same message twice must be the unary body twice, each followed by
+    the JSON delimiter; a failing path fails the stream with the same code and writes nothing -/
+def rbStreamWhy (res st : String) : Option String :=
+  match res.splitOn ":", st.splitOn ":" with
+  | _, ["nostream"] => some "response transcoder bound for JSON does not stream"
+  | ["err", code], ["err", code', w] =>
+    if code != code' then some s!"stream error {code'} differs from unary {code}"
+    else if w != "x" then some "stream wrote bytes although the path is invalid" else none
+  | ["err", _], _ => some "stream accepted a path the unary transcoder rejects"
+  | ["ok", h], ["ok", hs] =>
+    match (parseHex h).bind rbJson?, parseHex hs with
+    | some j, some bs =>
+      match splitOn10 bs with
+      | [d1, d2, []] =>
+        match rbJson? d1, rbJson? d2 with
+        | some j1, some j2 =>
+          if rbRender j1 != rbRender j then some "first streamed message differs from the unary body"
+          else if rbRender j2 != rbRender j then some "second pass over the same message renders a different body"
+          else none
+        | _, _ => some "streamed document is not JSON"
+      | _ => some "stream is not two newline-delimited documents"
+    | _, _ => some "unparsable stream output"
+  | ["ok", _], _ => some "stream rejected a path the unary transcoder accepts"
+  | _, _ => some "unparsable stream output"
+
+def handleRb1 (i o : List String) : String :=
+  match i, o with
+  | [schS, msgS, pathS], [orcS, res] =>
+    match rbSchema? schS, rbMsg? msgS, parseHex pathS, rbOracle? orcS with
+    | some (root :: sch), some m, some path, some orc =>
+      let sch := root :: sch
+      let env := rbEnv orc
+      let model := RP.respond rbOps sch root env m path
+      let spec := RP.specSelect sch root path
+      -- the specification's body: the JSON of the addressed sub-value, by the declarative resolution
+      let specBody : Option (Option Bytes) := spec.map fun sel => sel.bind fun sel =>
+        match RP.renderSel rbOps env m sel with
+        | .ok j => some (rbRender j)
+        | _ => none
+      let br := match spec with
+        | none => "unclean"
+        | some none => "invalid"
+        | some (some none) => "whole"
+        | some (some (some (pre, fd))) =>
+          let unset := (List.range pre.length).any (fun k => (RP.RMsg.get m (pre.take (k + 1))).isNone)
+          let kind := match fd.ty with
+            | .leaf .sing _ => "scalar" | .leaf .rep _ => "list" | .leaf (.map _) _ => "map"
+            | .msg _ => "msg" | .repMsg _ => "repmsg" | .mapMsg _ => "mapmsg"
+          s!"d{pre.length}.{kind}{if unset then ".unset" else ""}"
+      match res.splitOn ":" with
+      | ["err", code] =>
+        if code != "Internal" then s!"VIOL response-body-path-error-not-Internal impl={code}"
+        else match specBody with
+          | some (some _) => s!"VIOL response-body-valid-path-rejected spec={rbShowSel ((spec.bind id).bind id)}"
+          | _ => (match model with
+            | .internal => s!"OK b=rb.err.{br}"
+            | .body j => s!"DIFF model=ok:{toHex (rbRender j)}")
+      | ["ok", h] =>
+        match (parseHex h).bind rbJson? with
+        | none => "VIOL response-body-not-json"
+        | some ij =>
+          let ib := rbRender ij
+          match specBody with
+          | some none => "VIOL response-body-invalid-path-accepted (spec: no such field path / path through a non-message or repeated field)"
+          | some (some sb) =>
+            if sb != ib then s!"VIOL response-body-is-not-the-addressed-value spec={rbShowSel ((spec.bind id).bind id)} want={toHex sb}"
+            else (match model with
+              | .body j => if rbRender j == ib then s!"OK nt b=rb.{br}" else s!"DIFF model=ok:{toHex (rbRender j)}"
+              | .internal => "DIFF model=err")
+          | none => (match model with
+              | .body j => if rbRender j == ib then s!"OK nt b=rb.{br}" else s!"DIFF model=ok:{toHex (rbRender j)}"
+              | .internal => "DIFF model=err")
+      | _ => "BAD rb result"
+    | _, _, _, _ => "BAD rb parse"
+  | _, _ => "BAD rb arity"
+
+def handleRb (i o : List String) : String :=
+  match o with
+  | [orcS, res, st] =>
+    let v := handleRb1 i [orcS, res]
+    if v.startsWith "OK" then
+      match rbStreamWhy res st with
+      | some why => s!"VIOL response-stream-differs-from-unary: {why}"
+      | none => v
+    else v
+  | _ => "BAD rb arity"
+
 def handle : Handler
+  | "rb" :: _, "PANIC" :: why => s!"VIOL panic (response transcoder panicked on this response_body path) {" ".intercalate (why.map (fun h => (parseHex h).map bytesToString |>.getD h))}"
+  | "rb" :: i, o => handleRb i o
   | ["tbl", c], [out] => handleTbl c out
   | "cvt" :: [e], out => handleCvt e out
   -- the implementation crashed / hung / panicked on this request: never an acceptable outcome
